@@ -108,41 +108,7 @@ fn nontrivial(mode: &str, a: &Snap, b: &Snap, hist_max_fin: u64, hist_max_buf: u
     }
 }
 
-/// Which property an oracle hit is reported under, given the check that is running (DESIGN.md sections 3-4).
-pub fn attribute(v: &Viol, mode: &str) -> &'static str {
-    let base = v.prop;
-    match mode {
-        "C06" => {
-            if v.after_resurrection && !v.after_fault && matches!(base, "C01" | "C02") {
-                return "C06";
-            }
-            base
-        }
-        "C07" => {
-            if v.after_fault && matches!(base, "C01" | "C03" | "C05" | "C08" | "C07" | "C14") {
-                return "C07";
-            }
-            base
-        }
-        "C10" => {
-            if v.in_action && !v.after_fault && matches!(base, "C08" | "C01") {
-                return "C10";
-            }
-            base
-        }
-        "C14" => {
-            if v.after_fault && matches!(base, "C01" | "C03" | "C05" | "C08" | "C09" | "C07") {
-                return "C14";
-            }
-            if v.in_cyclic && matches!(base, "C08" | "C09") {
-                return "C14";
-            }
-            base
-        }
-        "C19" => "C19",
-        _ => base,
-    }
-}
+pub use crate::world::attribute;
 
 fn reset_config() {
     #[cfg(feature = "auto-collect")]
@@ -322,6 +288,7 @@ pub fn run_history(h: &History, cfg: &RunCfg, fault: Option<Fault>, fault2: Opti
     wd.epoch.set(wd.epoch.get() + 1);
     *wd.m.borrow_mut() = Model::new();
     wd.errs.borrow_mut().clear();
+    wd.stop_now.set(false);
     wd.harness_errors.borrow_mut().clear();
     wd.stack.borrow_mut().clear();
     wd.trace_log.borrow_mut().clear();
@@ -491,8 +458,7 @@ impl Shard {
         }
         // the first oracle hit decides; hits recorded for the same step under other properties (the same observation
         // seen by two oracles) are used when the first one belongs to a property this check does not report
-        let first_step = out.viols.first().map(|v| v.step);
-        let chosen = out.viols.iter().find(|v| Some(v.step) == first_step && self.cfg.props.contains(attribute(v, &self.cfg.mode))).or(out.viols.first());
+        let chosen = out.viols.iter().find(|v| self.cfg.props.contains(attribute(v, &self.cfg.mode))).or(out.viols.first());
         if let Some(v) = chosen {
             let prop = attribute(v, &self.cfg.mode);
             let mut replay = self.base_args.clone();
@@ -530,7 +496,7 @@ impl Shard {
                 self.rep.set_add("foreign_signatures", sig.clone());
             }
             // after any hit on a memory-safety oracle the process state cannot be trusted any more
-            if matches!(v.prop, "C01" | "C03" | "C14" | "C16") || v.oracle.contains("dead") || v.oracle.contains("damaged") {
+            if out.viols.iter().any(|v| matches!(v.prop, "C01" | "C03" | "C20") || matches!(v.oracle, "drop_of_uninit" | "drop_of_garbage") || v.oracle.contains("dead") || v.oracle.contains("damaged") || v.oracle.contains("panic")) {
                 self.stop = true;
             }
         }
@@ -648,6 +614,8 @@ pub fn main(args: &Args) -> i32 {
         }
     }
     wd.judge_idle_after_unwind.set(props.contains("C07") || mode == "C07");
+    *wd.run_mode.borrow_mut() = mode.clone();
+    *wd.run_props.borrow_mut() = props.iter().cloned().collect();
     let mut sh = Shard { cfg: RunCfg { mode: mode.clone(), props, verbose, leak_check: alloc_mode != "off" }, rep: Report::new(), base_args, stop: false, mode_props_seen: 0 };
     sh.rep.set_add("features", feature_string());
     sh.rep.set_add("profile", if cfg!(debug_assertions) { "debug" } else { "release" });
